@@ -554,6 +554,16 @@ func plPlacementScenarios(thorough bool) []*plScenario {
 		out = append(out, &plScenario{Name: "place:lazy-partition", SrcN: 1, TgtN: 1, Colls: []*plColl{c},
 			Drivers: []plDriver{{Kind: "start", Coll: 0}, {Kind: "addpart", Coll: 0, Part: "p1", PartState: pb.PartitionState_PartitionCreated}}})
 	}
+	// the same on a two-shard collection: both handlers learn the partition id lazily, one of them asks the downstream
+	// before the partition exists there (what it learns, or fails to learn, must not reach the other shard's messages)
+	{
+		c := mkColl(101, "c1", []string{"src-dml_0", "src-dml_1"}, []string{"tgt-dml_0", "tgt-dml_1"})
+		withPartition(c, false)
+		c.Shards[0].Script = []plPack{pkInsPart(1000)}
+		c.Shards[1].Script = []plPack{pkInsPart(1001), pkIns(1011)}
+		out = append(out, &plScenario{Name: "place:lazy-partition-2-shards", SrcN: 2, TgtN: 2, Colls: []*plColl{c}, DelayPartitionOnTarget: true,
+			Drivers: []plDriver{{Kind: "start", Coll: 0}, {Kind: "addpart", Coll: 0, Part: "p1", PartState: pb.PartitionState_PartitionCreated}}, HeavyBound: 1})
+	}
 	// downstream collection does not exist yet: created through the create-collection event
 	{
 		c := mkColl(101, "c1", []string{"src-dml_0"}, []string{"tgt-dml_4"})
